@@ -567,6 +567,28 @@ fn enc(v: &Value, out: &mut String) {
     }
 }
 
+/// The key index of every object of `v` answers what a scan of its entries answers.
+fn index_consistent(v: &Value) -> bool {
+    match v {
+        Value::Array(a) => a.iter().all(index_consistent),
+        Value::Object(o) => {
+            let es: Vec<_> = o.iter().collect();
+            for e in &es {
+                let want: Vec<usize> = es.iter().enumerate().filter(|(_, x)| x.key == e.key).map(|(i, _)| i).collect();
+                let got: Vec<usize> = o.indexes_of(e.key.as_str()).collect();
+                if want != got || o.index_of(e.key.as_str()) != want.first().copied() || !o.contains_key(e.key.as_str()) {
+                    return false;
+                }
+                if o.get(e.key.as_str()).count() != want.len() {
+                    return false;
+                }
+            }
+            o.indexes_of("\u{1}absent").next().is_none() && es.iter().all(|e| index_consistent(&e.value))
+        }
+        _ => true,
+    }
+}
+
 fn report(text: &str, f: fn() -> Value) {
     let mut line = String::new();
     match std::panic::catch_unwind(f) {
@@ -577,7 +599,8 @@ fn report(text: &str, f: fn() -> Value) {
                 Ok((p, _)) => {
                     line.push_str(" P=");
                     enc(&p, &mut line);
-                    line.push_str(if m == p { " EQ=1" } else { " EQ=0" });
+                    // equal, and usable alike: lookups by key see every entry of the built value
+                    line.push_str(if m == p && index_consistent(&m) && index_consistent(&p) { " EQ=1" } else { " EQ=0" });
                 }
                 Err(_) => line.push_str(" P=ERR EQ=0"),
             }
@@ -1117,7 +1140,19 @@ pub fn documents(args: &Args) -> Vec<Doc> {
     let mut rng = Rng::new(args.seed);
     let full = args.thorough();
     let total = if full { 3000 } else { 300 };
-    let mut docs = systematic(&mut rng, full);
+    let mut docs = vec![];
+    // objects wide enough for several growths of the key index (4, 8, 15, 29 distinct keys), with a
+    // repeated early key, top level and nested
+    for (i, n) in (if full { vec![3usize, 4, 5, 7, 8, 9, 14, 15, 16, 28, 29, 30, 40] } else { vec![4, 8, 9, 15, 16, 29, 30] }).into_iter().enumerate() {
+        let forms = [KForm::Lit, KForm::Paren, KForm::Var, KForm::ParenVar];
+        let mut es: Vec<(KForm, String, Doc)> = (0..n).map(|j| (forms[(i + j) % 4].clone(), format!("k{j}"), Doc::Int(j as i128, None))).collect();
+        if i % 2 == 0 {
+            es.push((KForm::Lit, "k0".into(), Doc::Null));
+        }
+        let o = Doc::Obj(es, i % 3 == 0);
+        docs.push(if i % 2 == 1 { Doc::Arr(vec![Doc::Null, o], false) } else { o });
+    }
+    docs.extend(systematic(&mut rng, full));
     docs.truncate(total * 2 / 3);
     while docs.len() < total {
         let mut r = rng.fork();
